@@ -55,6 +55,7 @@ def run(chk):
     for target, cls, eam in (("GULP", "GULP_PairTabulation", False), ("excel", "Excel_PairTabulation", False),
                              ("excel_eam", "Excel_EAMTabulation", True)):
         chk.attempt("F/" + target, lambda: W.factory_route(chk, P, "C19.F", W.resolve_target(P, target), cls, eam=eam, label=target))
+    W.path_state_rule(chk, P, "C19.S", "GULP/ADP/funcfl/Excel write and build path")
     chk.assume("floating-point rounding is not decided; bytes produced inside openpyxl are not decided")
     chk.assume("Excel workbooks are evaluated on two-potential / two-element models (column loops need a concrete column count); "
                "rows are symbolic")
